@@ -17,3 +17,8 @@ def bounded(ctx):
     c16.complexes(ctx)
     c16.lists(ctx)
     c16.list_histories(ctx)
+
+
+# T1 (PyVC): New.append - the single place where specificity is counted - adds exactly the statement's formula for every item type,
+# value and context (178 paths), and appends exactly one item or nothing.
+T1 = [('contracts.selector', None)]
